@@ -12,7 +12,7 @@ CONSTANTS
   MaxPosOps = 1000
   Active = {"r1", "r2", "w"}
   Bin = FALSE
-  Acts = {"write", "read", "readblock", "seek", "tell", "refresh", "close", "reopen", "delete", "tick"}
+  Acts = {"write", "writenf", "flush", "read", "readblock", "seek", "tell", "refresh", "close", "reopen", "delete", "tick"}
   Defects = {"overwrite", "refresh_skip", "frac_ts"}
 CHECK_DEADLOCK TRUE
 INVARIANT TypeOK
